@@ -193,6 +193,25 @@ func (s *shaper) Shape(v ssa.Value) ([]Atom, error) {
 		if com.IsInvoke() {
 			return []Atom{{Kind: AtomCall, Text: com.Method.Name(), Arg: descValue(com.Value), Val: com.Value, Call: x}}, nil
 		}
+		if sc := com.StaticCallee(); sc != nil && s.p.isFirstParty(sc) && len(sc.Blocks) == 1 && sc.Signature.Recv() == nil && len(com.Args) == len(sc.Params) {
+			// straight-line first-party helper returning a string: inline its shape with the
+			// parameters bound to the caller's arguments
+			if ret := soleReturn(sc); ret != nil {
+				if b, ok := ret.Results[0].Type().Underlying().(*types.Basic); ok && b.Kind() == types.String {
+					inner, err := s.Shape(ret.Results[0])
+					if err == nil {
+						bind := map[ssa.Value]ssa.Value{}
+						for i, prm := range sc.Params {
+							bind[prm] = com.Args[i]
+						}
+						out, ok := s.substitute(inner, bind)
+						if ok {
+							return mergeConsts(out), nil
+						}
+					}
+				}
+			}
+		}
 		if sc := com.StaticCallee(); sc != nil {
 			arg := ""
 			var val ssa.Value
@@ -334,4 +353,47 @@ func shapesEqual(a, b []Atom) (bool, string) {
 		}
 	}
 	return true, ""
+}
+
+// substitute replaces, in a callee's shape, atoms that refer to the callee's parameters by
+// the caller's arguments. ok=false when an atom depends on a parameter in a way that cannot
+// be re-expressed in the caller.
+func (s *shaper) substitute(atoms []Atom, bind map[ssa.Value]ssa.Value) ([]Atom, bool) {
+	var out []Atom
+	for _, a := range atoms {
+		switch a.Kind {
+		case AtomConst:
+			out = append(out, a)
+		case AtomOpaque:
+			if arg, ok := bind[a.Val]; ok {
+				as, err := s.Shape(arg)
+				if err != nil {
+					return nil, false
+				}
+				out = append(out, as...)
+				continue
+			}
+			return nil, false
+		case AtomCall:
+			if a.Val == nil {
+				out = append(out, a)
+				continue
+			}
+			if arg, ok := bind[a.Val]; ok {
+				b := a
+				b.Val = arg
+				b.Arg = descValue(arg)
+				out = append(out, b)
+				continue
+			}
+			// a value computed inside the callee from its parameters: give up
+			if _, isParam := a.Val.(*ssa.Parameter); isParam {
+				return nil, false
+			}
+			return nil, false
+		default:
+			return nil, false
+		}
+	}
+	return out, true
 }
